@@ -40,6 +40,9 @@ impl Prop for C11 {
     fn id(&self) -> &'static str {
         "C11"
     }
+    fn canary(&self) -> bool {
+        true
+    }
     fn rule(&self) -> String {
         "cases = one handshake response in 4.1 or 3.20 layout with a random 32-bit (16-bit) capability mask, a user name of arbitrary non-NUL bytes (empty, non-UTF-8, up to 600 bytes, occasionally ~64 KiB), arbitrary reserved bytes (all zero, MariaDB-style extended capabilities in the last four, or 23 random bytes), random trailing auth/db/plugin bytes (occasionally ~64 KiB, up to 200 KB, or enough to make the response a multi-fragment message of >= 2^24-1 bytes) and a response sequence id (1 mostly, else 0-255), against a shim with or without a TLS configuration (the SSL bit is only requested when TLS is *not* configured; the configured case is C18) that accepts or rejects with a tagged error, with 0-5 commands already pipelined behind the handshake, under a generated chunk schedule. Oracle: first server packet parses as a protocol-10 greeting (own decoder + mysql_common::HandshakePacket) with PROTOCOL_41 set, the SSL bit set iff TLS is configured, sequence id 0 and flushed before the first read; after_authentication is called exactly once, before any command callback, with exactly the user name sent; accept => OK with id+1 and all pipelined commands served; reject => ERR 1045/28000, run_on returns the very error the shim returned and no command callback runs; SSL requested without configuration => Err and no after_authentication. Non-trivial = non-default mask/user/layout, or pipelined commands with a rejection.".into()
     }
